@@ -56,17 +56,22 @@ def new_items(args, snap):
     return out
 
 
-def loop_spec(eng, label, prop, fresh_only, extra_sets=(), extra_havoc=None):
+def loop_spec(eng, label, prop, fresh_only, extra_sets=(), extra_havoc=None,
+              pre_havoc=None):
 
     def havoc(e, env_, p):
         frames = p.ghost['frames']
+        if pre_havoc:
+            # state the guards of the frames read must be havocked first
+            pre_havoc(e, env_, p)
         v, a = frames.havoc(p)
         env_.vars['visit'], env_.vars['args'] = v, a
-        if extra_havoc:
+        if extra_havoc and extra_havoc is not pre_havoc:
             extra_havoc(e, env_, p)
 
     def inv(e, env_):
         p = cur()
+        p.ghost['loop_env'] = env_
         eqs = p.ghost['frames'].levels(env_.vars['visit'], env_.vars['args'])
         if eqs is None:
             return [False]
@@ -290,9 +295,11 @@ def setup_sb(eng):
 
     def extra(e, env_, p):
         env_.vars['changed'] = sym.mk_bool(p.fresh_bool('changed'))
+        p.ghost['loop_env'] = env_
 
     base = loop_spec(eng, 'substitute', 'C11', fresh_only=False,
-                     extra_sets=('changed', ), extra_havoc=extra)
+                     extra_sets=('changed', ), extra_havoc=extra,
+                     pre_havoc=extra)
     end0 = base.on_iter_end
     start0 = base.on_iter_start
 
@@ -333,7 +340,17 @@ def setup_sb(eng):
 def run_sb(eng, p):
     nodes_mod = eng.load_module('ddsmt.nodes')
     forest, F = wl.forest(eng, p)
-    p.ghost['frames'] = fr.Frames(eng, F, SubSpec())
+    # while nothing has been replaced (``changed`` false) every list holds
+    # exactly the original nodes' structures: identity specification under
+    # that guard (so a shortcut that relies on ``changed`` verifies, and the
+    # unchanged case is covered)
+    def unchanged():
+        env_ = p.ghost.get('loop_env')
+        ch = env_.vars.get('changed') if env_ is not None else False
+        return z3.Not(sym.zbool(ch))
+
+    p.ghost['frames'] = fr.Frames(eng, F, SubSpec(),
+                                  extra=[(fr.IdentitySpec(), unchanged)])
     n = p.fresh_int('repl_len')
     p.assume(n >= 1)
     p.ghost['repl_len'] = n
@@ -350,11 +367,15 @@ def run_sb(eng, p):
     if err is not None:
         return
     if r is forest:
-        # nothing was replaced: the argument itself is returned (that the
-        # reference substitution is the identity then is covered by the
-        # shape-bounded contract only)
+        # nothing was replaced: the argument itself is returned, and the
+        # reference substitution is the identity on it
         p.oblige('cover/substitute/returns-the-argument-when-unchanged',
                  False, kind='cover')
+        p.oblige('C11/substitute/unchanged-input-is-returned-only-if-the-'
+                 'substitution-is-the-identity',
+                 mk_bool(SUBL(F) == F),
+                 info={'signature': 'the argument is returned although the '
+                       'reference substitution changes it'})
         return
     ok = isinstance(r, (fr.ResList, list))
     p.oblige('C11/substitute/returns-a-list', ok, info=repr(r)[:100])
